@@ -54,7 +54,9 @@ func init() {
 	stubs["(*sync.Mutex).Lock"] = func(e *Engine, st *State, fr *Frame, fn *ssa.Function, args []Value, pos token.Pos) []exit {
 		p := args[0].(PtrV)
 		if st.mutexes[p.Obj] {
-			panic(unsupported("sync.Mutex.Lock on a mutex that is already held (would block)"))
+			// held by another thread: wait for its Unlock (the call is re-executed on wake-up); a main thread
+			// that waits lets sleepers and not-yet-started goroutines run
+			return []exit{{st: st, kind: exitPark, wait: p.Obj, pmsg: "sync.Mutex.Lock"}}
 		}
 		st.mutexes[p.Obj] = true
 		return retExit(st, nil)
@@ -66,7 +68,12 @@ func init() {
 			return []exit{{st: st, kind: exitPanic, pmsg: "sync: unlock of unlocked mutex"}}
 		}
 		delete(st.mutexes, p.Obj)
-		return retExit(st, nil)
+		var px []exit
+		var out []exit
+		for _, s2 := range e.wake(st, p.Obj, &px) {
+			out = append(out, exit{st: s2, kind: exitReturn})
+		}
+		return append(out, px...)
 	}
 	stubs["(*sync.Mutex).TryLock"] = func(e *Engine, st *State, fr *Frame, fn *ssa.Function, args []Value, pos token.Pos) []exit {
 		p := args[0].(PtrV)
